@@ -34,6 +34,7 @@ def run(check: Check, repo: Repo, tier: str) -> None:
     M.node_key_identity(check, repo)
     M.exclusive_objects(check, repo)
     M.every_field_recorded(check, repo)
+    M.shared_map_reads(check, repo)
     M.node_value_compare(check, repo, [m for m in repo.package_modules("validation") if ".custom" not in m.name])
     from rules import generic_rules as G
     mm = repo.mod(M.MOD)
